@@ -19,7 +19,9 @@ ExactCases == { [ps |-> << Pr(8, xs[1], xs[2], R, 4), Second >>, n |-> n, off |-
 \* symbolic scope: both index starts, 0..3 parents with unsorted ids, n in 1..64
 SymLists == { <<>>, << Pr(5, <<8, 8, 8>>, <<0, 0, 0>>, Id, 1) >>,
               << Pr(9, <<8, 8, 8>>, <<1, 2, 3>>, Rx1, 2), Pr(2, <<16, 0, 8>>, <<0, 0, 0>>, Ry1, 3), Pr(4, <<0, 0, 0>>, <<4, 4, 4>>, Rz1, 1) >> }
-SymCases == { [ps |-> l, n |-> n, off |-> <<8, 0, 4>>, j0 |-> j0] : l \in SymLists, n \in 1..64, j0 \in {0, 1} }
+\* the orders of the symmetry: the whole range of the property and a few larger ones (float-step pitfalls: 122, 197)
+NDomain == 1..64 \cup {122, 197}
+SymCases == { [ps |-> l, n |-> n, off |-> <<8, 0, 4>>, j0 |-> j0] : l \in SymLists, n \in NDomain, j0 \in {0, 1} }
 
 AllCases == ExactCases \cup SymCases
 =============================================================================
